@@ -34,11 +34,13 @@ let () = register "tree" (fun args ->
             Printf.sprintf "%s %s %s %s %s" (string_of_z (stat_leaf_keys !st)) (string_of_n (stat_pages !st))
               (string_of_z (stat_pages_free !st)) (string_of_n (stat_next_page !st)) (string_of_n (stat_free_page !st))
         | [ "datalen" ] -> string_of_n (stat_allocated !st)
-        | [ "fill"; k0; step; v; p ] ->
+        | [ "tight" ] -> st := tree_tight psn !st; "ok"
+        | [ ("fill" | "tfill") as which; k0; step; v; p ] ->
             let k = ref (n_of_string k0) and step = n_of_string step and v = n_of_string v in
             let p = n_of_string p in
             let n = ref 0 in
             while N.ltb (stat_pages !st) p && !n < 400000 do
+              if which = "tfill" then st := tree_tight psn !st;
               (match tree_set m psn !st !k v with Some s -> st := s | None -> failwith "panic");
               k := add64 !k step; incr n
             done;
